@@ -166,6 +166,8 @@ func vRegisteredFigures(steps int, evts []EventType) {
 	var fReg [2]bool
 	var q [2]Query1[vPos]
 	var qOpen [2]bool
+	nComp := len(w.storage.registry.Components)
+	vcheck("six-types-registered", nComp == 6)
 	count := func(b []bool) int {
 		n := 0
 		for _, x := range b {
@@ -180,9 +182,15 @@ func vRegisteredFigures(steps int, evts []EventType) {
 		vcheck(l+"/observers-figure", st.Observers == count(obsReg[:]))
 		vcheck(l+"/filters-figure", st.CachedFilters == count(fReg[:]))
 		vcheck(l+"/locked-figure", st.Locked == (count(qOpen[:]) > 0) && w.IsLocked() == st.Locked)
+		vcheck(l+"/component-types-figure", len(st.ComponentTypes) == nComp && len(st.ComponentTypeNames) == nComp)
 	}
 	for s := 0; s < steps; s++ {
-		switch vPick("action", 6) {
+		switch vPick("action", 7) {
+		case 6: // a component type registered between Stats calls, without any new archetype
+			if count(qOpen[:]) == 0 {
+				TypeID(w, vNthType(2000+nComp))
+				nComp++
+			}
 		case 0:
 			if nObs < len(obs) {
 				obs[nObs] = Observe(evts[vPick("evt", len(evts))]).Do(func(Entity) {}).Register(w)
@@ -245,5 +253,6 @@ func VerifC19_RegisteredFigures() {
 	vRegisteredFigures(3, []EventType{OnCreateEntity, OnRemoveEntity, OnAddComponents, 0})
 }
 func VerifC19T_RegisteredFigures() {
+	vNoMul = true
 	vRegisteredFigures(3, []EventType{OnCreateEntity, OnRemoveEntity, OnAddComponents, OnRemoveComponents, OnSetComponents, OnAddRelations, OnRemoveRelations, 0, customEvent})
 }
